@@ -187,6 +187,16 @@ class PandasSchemaBackend(BaseSchemaBackend):
             error_counts=error_counts,
         )
 
+    @staticmethod
+    def has_only_row_errors(error_handler: ErrorHandler) -> bool:
+        """Whether every collected error is attributable to rows, i.e. carries
+        tabular failure cases with the index of the failing rows."""
+        return all(
+            isinstance(err.failure_cases, pd.DataFrame)
+            and "index" in err.failure_cases
+            for err in error_handler.schema_errors
+        )
+
     def drop_invalid_rows(self, check_obj, error_handler: ErrorHandler):
         """Remove invalid elements in a check obj according to failures in caught by the error handler."""
         errors = error_handler.schema_errors
